@@ -32,6 +32,7 @@
 //!         `Session::tick()` is called (read_frame -> parse -> handle_msg); `c` the peer closes, then `tick()`;
 //!         `wX` a malformed frame (length field 5) is written, then `tick()`; `cM` the peer writes half a header and
 //!         closes, then `tick()`: `read_frame` fails in both cases
+//!         `cDr` `cDc` `cDd` `cDh` `cDo` Command::Disconnect(ConnectionRejected / Reconfiguration / Deconfigured / HoldTimerExpired / Other),
 //!         `cD` Command::Disconnect(Shutdown) / `cK` Command::ForcedKeepalive on the command channel, then `tick()`
 //!   reply additionally `noconn` (no connection attached: nothing to read; ends the history), `hang`
 //! Reply: one record per step joined by ` ; `:
@@ -128,6 +129,9 @@ pub enum Step {
     ReadErr(bool),
     /// `t` lines only: `Command::Disconnect(DisconnectReason::Shutdown)` is sent, then `tick()`
     CmdDisconnect,
+    /// `t` lines only: `Command::Disconnect(reason)` with one of the other reasons: `r` ConnectionRejected,
+    /// `c` Reconfiguration, `d` Deconfigured, `h` HoldTimerExpired, `o` Other (tokens cDr cDc cDd cDh cDo)
+    CmdDisconnectWith(char),
     /// `t` lines only: `Command::ForcedKeepalive` is sent, then `tick()`
     CmdKeepalive,
     /// `t` lines only: the peer writes `k` UPDATEs (of `n` withdrawals each) back to back and `tick()` is
@@ -213,6 +217,7 @@ impl Step {
             Step::Close => "c".into(),
             Step::ReadErr(mid) => if *mid { "cM".into() } else { "wX".into() },
             Step::CmdDisconnect => "cD".into(),
+            Step::CmdDisconnectWith(c) => format!("cD{}", c),
             Step::CmdKeepalive => "cK".into(),
             Step::Burst(k, n) => format!("bU:{}:{}", k, n),
         }
@@ -512,6 +517,11 @@ impl Live {
                 if *mid { Act::CloseMid } else { let mut b = header(5, 4); b.push(0); Act::Wire(b) }
             }
             Step::CmdDisconnect => Act::Cmd(Command::Disconnect(routecore::bgp::fsm::session::DisconnectReason::Shutdown)),
+            Step::CmdDisconnectWith(c) => {
+                use routecore::bgp::fsm::session::DisconnectReason as R;
+                Act::Cmd(Command::Disconnect(match c { 'r' => R::ConnectionRejected, 'c' => R::Reconfiguration, 'd' => R::Deconfigured,
+                    'h' => R::HoldTimerExpired, _ => R::Other }))
+            }
             Step::CmdKeepalive => Act::Cmd(Command::ForcedKeepalive),
             Step::Burst(k, n) => {
                 if !self.has_conn() { return Out::NoConn; }
@@ -655,6 +665,7 @@ fn parse_tick_step(t: &str) -> Option<Step> {
     if t == "cM" { return Some(Step::ReadErr(true)); }
     if t == "wX" { return Some(Step::ReadErr(false)); }
     if t == "cD" { return Some(Step::CmdDisconnect); }
+    for c in ['r', 'c', 'd', 'h', 'o'] { if t == format!("cD{}", c) { return Some(Step::CmdDisconnectWith(c)); } }
     if t == "cK" { return Some(Step::CmdKeepalive); }
     if let Some(rest) = t.strip_prefix("bU:") {
         let p: Vec<&str> = rest.split(':').collect();
@@ -772,6 +783,10 @@ fn rfc_event(st: &Step, dop: bool, passive: bool) -> Option<u8> {
         Step::ReadErr(mid) => if *mid { 18 } else { return None },
         // the application's stop command is ManualStop
         Step::CmdDisconnect => 2,
+        // ... also when it names another administrative reason (Cease with another subcode); a stop that names
+        // HoldTimerExpired (NOTIFICATION 4/0) or no reason at all (`Other`: the code sends nothing) is not the RFC's
+        // ManualStop: the oracle abstains, the model mirrors the code
+        Step::CmdDisconnectWith(c) => if matches!(c, 'r' | 'c' | 'd') { 2 } else { return None },
         Step::CmdKeepalive => return None,
         Step::Burst(..) => 27,
     })
@@ -926,7 +941,7 @@ fn random_open(rng: &mut Rng, malformed_ap: bool) -> OpenP {
 fn step_kind(st: &Step, dop: bool) -> u8 {
     match st { Step::Ev(k, _) => *k, Step::MOpen(_) => if dop { 20 } else { 12 }, Step::MKeep => 17, Step::MUpd(_) | Step::Burst(..) => 18,
         Step::MNotif(2, 1) => 15, Step::MNotif(..) => 16, Step::MRefresh | Step::Attach | Step::Room(_) | Step::Timer | Step::Wait(_) => 255, Step::AStart => 3, Step::AConn => 10,
-        Step::Wire(inner) => step_kind(inner, dop), Step::Close | Step::ReadErr(true) => 11, Step::ReadErr(false) => 13, Step::CmdDisconnect => 1, Step::CmdKeepalive => 255 }
+        Step::Wire(inner) => step_kind(inner, dop), Step::Close | Step::ReadErr(true) => 11, Step::ReadErr(false) => 13, Step::CmdDisconnect | Step::CmdDisconnectWith(_) => 1, Step::CmdKeepalive => 255 }
 }
 
 impl Prop for C08 {
@@ -1139,6 +1154,8 @@ impl Prop for C08 {
             w(Step::MOpen(OK_OPEN())), w(Step::MOpen(BAD_OPEN())), w(Step::MOpen(OpenP { asn: 4_200_000_001, hold: 30, ap: vec![], field: None })),
             w(Step::MOpen(OpenP { asn: 65001, hold: 0, ap: vec![], field: None })), w(Step::MKeep), w(Step::MUpd(0)), w(Step::MUpd(2)),
             w(Step::MNotif(6, 2)), w(Step::MNotif(2, 1)), w(Step::MNotif(4, 0)), Step::Close, Step::ReadErr(false), Step::ReadErr(true), Step::CmdDisconnect, Step::CmdKeepalive,
+            // (tie coverage) the other arms of Session::disconnect
+            Step::CmdDisconnectWith('r'), Step::CmdDisconnectWith('c'), Step::CmdDisconnectWith('d'), Step::CmdDisconnectWith('h'), Step::CmdDisconnectWith('o'),
             // more UPDATEs back to back than the application channel holds, the application reading late
             Step::Burst(8, 1), Step::Burst(5, 0), Step::Burst(12, 2),
         ];
@@ -1180,7 +1197,7 @@ impl Prop for C08 {
                     12 => Step::AStart,
                     13 => Step::AConn,
                     14 => match rng.below(5) { 0 | 1 => Step::Ev(7, None), 2 | 3 => Step::CmdKeepalive, _ => Step::Room(*rng.pick(&[0u8, 1, 2, 64])) },
-                    _ => if rng.chance(1, 3) { Step::CmdDisconnect } else { Step::Ev(*rng.pick(&[1u8, 6, 17, 18]), None) },
+                    _ => if rng.chance(1, 3) { if rng.bool() { Step::CmdDisconnect } else { Step::CmdDisconnectWith(*rng.pick(&['r', 'c', 'd', 'h', 'o'])) } } else { Step::Ev(*rng.pick(&[1u8, 6, 17, 18]), None) },
                 });
             }
             v.push(show_tick_line(&cfg, &steps));
@@ -1302,6 +1319,12 @@ impl Prop for C08 {
                 }
             } else if let Some(ev) = ev {
                 check12(ev)?;
+            } else if let Step::CmdDisconnectWith(c) = step {
+                // a stop command that names HoldTimerExpired or no reason (`Other`): which NOTIFICATION it sends is
+                // not judged (see rfc_event); it is still a stop: Idle, connection released
+                if r.st != 1 || r.conn {
+                    return Err(format!("step {} `cD{}`: a stop command must leave the session in Idle without a connection, got {} conn={}", i, c, STATE_NAMES[r.st as usize], r.conn));
+                }
             } else if r.st != st && !matches!(step, Step::ReadErr(false)) {
                 return Err(format!("step {} `{}` is no FSM event but changed the state", i, step.show()));
             }
